@@ -390,26 +390,26 @@ pub fn eval_scenario(s: &Scenario, with_recorder: bool) -> (Vec<(String, String)
     } else {
         None
     };
-    // the same request with the quaternion of every second pose negated (the same rotations): same outcome, and a path
-    // that satisfies the same clauses. Always where bisection can occur (tight cost limit with recursion allowed), on
-    // every scenario in the thorough tier
+    // the same request with the quaternion of every second pose negated (the same rotations): a successful plan must
+    // satisfy the same clauses. Always where bisection can occur (tight cost limit with recursion allowed), on every
+    // scenario in the thorough tier. Success itself is not promised by the statement: an outcome that differs between
+    // the two spellings is recorded in the signature, not judged
+    let mut sign_note = "";
     if (s.cost < 2 && s.depth > 0) || THOROUGH.load(std::sync::atomic::Ordering::Relaxed) {
-        match (&res, plan_negated(s, &b)) {
-            (_, Err(m)) => fails.push(("C12/panic/negated-quaternions".to_string(), m)),
-            (Ok(Ok(_)), Ok(Err(e))) => fails.push((
-                "C12/outcome-depends-on-quaternion-sign".to_string(),
-                format!("planning succeeds, but fails with {e} when every second pose carries the negated quaternion of the same rotation"),
-            )),
-            (Ok(Err(e)), Ok(Ok(_))) => fails.push((
-                "C12/outcome-depends-on-quaternion-sign".to_string(),
-                format!("planning fails with {e}, but succeeds when every second pose carries the negated quaternion of the same rotation"),
-            )),
-            (_, Ok(Ok(path))) => {
-                for (k, d) in judge_path(s, &b, &path, if s.cost == 2 { Some(false) } else { None }) {
-                    fails.push((format!("{k}/negated-quaternions"), d));
+        match plan_negated(s, &b) {
+            Err(m) => fails.push(("C12/panic/negated-quaternions".to_string(), m)),
+            Ok(other) => {
+                if let (Ok(mine), theirs) = (&res, &other) {
+                    if mine.is_ok() != theirs.is_ok() {
+                        sign_note = ":outcome-differs-with-negated-quaternions";
+                    }
+                }
+                if let Ok(path) = other {
+                    for (k, d) in judge_path(s, &b, &path, if s.cost == 2 { Some(false) } else { None }) {
+                        fails.push((format!("{k}/negated-quaternions"), d));
+                    }
                 }
             }
-            _ => {}
         }
     }
     match res {
@@ -421,12 +421,12 @@ pub fn eval_scenario(s: &Scenario, with_recorder: bool) -> (Vec<(String, String)
             if *s == Scenario::easy() || (s.obstacle == 0 && s.limits == 0 && s.cost == 2 && s.rrt_try >= 4 && s.start <= 1) {
                 fails.push(("C12/easy-scenario-fails".to_string(), format!("free cell, wide limits, generous cost: planning failed with {e}")));
             }
-            (fails, format!("err:obstacle{}", s.obstacle))
+            (fails, format!("err:obstacle{}{sign_note}", s.obstacle))
         }
         Ok(Ok(path)) => {
             fails.extend(judge_path(s, &b, &path, gap));
             let n_interp = path.iter().filter(|w| has(&w.flags, PathFlags::LIN_INTERP)).count();
-            (fails, format!("ok:obstacle{}:interp{}:n{}", s.obstacle, if n_interp > 0 { "yes" } else { "no" }, (path.len() / 4) * 4))
+            (fails, format!("ok:obstacle{}:interp{}:n{}{sign_note}", s.obstacle, if n_interp > 0 { "yes" } else { "no" }, (path.len() / 4) * 4))
         }
     }
 }
